@@ -297,7 +297,8 @@ class Reaction(Object):
         ValueError
             If the lower bound is higher than upper bound.
         """
-        if lb > ub:
+        # written so that NaN (which compares false with everything) is refused too
+        if not lb <= ub:
             raise ValueError(
                 f"The lower bound must be less than or equal to the upper bound "
                 f"({lb} <= {ub})."
